@@ -976,7 +976,14 @@ func vSameResults(a, b []VectorResult) string {
 // instance one query at a time, then best-k.
 func (s *vKindSys) observeMulti(h []string) {
 	qa := vQueryAlphabet(s.cfg.Dim)
-	combos := [][]int{{0, 1}, {0, 0}, {1, 2}}
+	// (a near query before a far one, a far one before a near one, a query twice)
+	combos := [][]int{{0, 1}, {0, 0}, {1, 2}, {2, 0}}
+	// probing: everything, and - for the kinds with inverted lists - one list per query
+	// (every query of a batch probes ITS OWN nearest lists)
+	probes := []int{-1}
+	if (s.cfg.Kind == "ivf" || s.cfg.Kind == "ivfpq") && s.cfg.NList >= 2 {
+		probes = append(probes, 1)
+	}
 	var live []uint32
 	for id := range s.m.live {
 		live = append(live, id)
@@ -985,7 +992,14 @@ func (s *vKindSys) observeMulti(h []string) {
 	for _, agg := range []ScoreAggregationKind{SumAggregation, MaxAggregation, MeanAggregation} {
 		for ci, combo := range combos {
 			for _, k := range []int{-1, 2} {
-				for _, withNode := range []bool{false, true} {
+				for pi, withNode := range []bool{false, true, false} {
+					np := -1
+					if pi == 2 {
+						if len(probes) < 2 || agg != SumAggregation {
+							continue
+						}
+						np = probes[1]
+					}
 					if withNode && len(live) == 0 {
 						continue
 					}
@@ -996,13 +1010,13 @@ func (s *vKindSys) observeMulti(h []string) {
 					fail := false
 					for _, qi := range combo {
 						qs = append(qs, vCopyVec(qa[qi]))
-						r, err := vRunVecQuery(s.idx, vVecQuery{Q: qa[qi], K: k, NProb: -1})
+						r, err := vRunVecQuery(s.idx, vVecQuery{Q: qa[qi], K: k, NProb: np})
 						if err != nil {
 							fail = true
 						}
 						lists = append(lists, r)
 					}
-					srch = srch.WithQuery(qs...).WithNProbes(-1)
+					srch = srch.WithQuery(qs...).WithNProbes(np)
 					if withNode {
 						srch = srch.WithNode(live[0])
 						r, err := vRunVecQuery(s.idx, vVecQuery{Node: live[0], K: k, NProb: -1})
@@ -1056,10 +1070,10 @@ func (s *vKindSys) observeMulti(h []string) {
 						return cands[i].id < cands[j].id
 					})
 					if msg := vAcceptExact(got, cands, k); msg != "" {
-						s.c.Violation("multi-query-aggregation", string(agg), s.cfgS, h, fmt.Sprintf("agg=%s combo=%v node=%v k=%d: %s; got [%s]", agg, combo, withNode, k, msg, vResStr(got)))
+						s.c.Violation("multi-query-aggregation", string(agg), s.cfgS, h, fmt.Sprintf("agg=%s combo=%v node=%v k=%d nprobes=%d: %s; got [%s]", agg, combo, withNode, k, np, msg, vResStr(got)))
 					}
 					if len(per) > 0 {
-						s.c.Nontrivial(fmt.Sprintf("%s|%s|multi%s/%d/%d/%v", s.cfgS, s.m.key(), agg, ci, k, withNode))
+						s.c.Nontrivial(fmt.Sprintf("%s|%s|multi%s/%d/%d/%v/%d", s.cfgS, s.m.key(), agg, ci, k, withNode, np))
 					}
 				}
 			}
